@@ -184,6 +184,9 @@ def run(ctx):
                 if rng.random() < 0.5:
                     body.append('SADI X%d0 %s' % (j, gf['names'][0]))
                     nrest_inc += 1
+                if j == 0 and rng.random() < 0.3:
+                    # further free variables defined in the include file (they belong to the model, not to the written res file)
+                    body.insert(0, 'FVAR 0.35 0.45')
                 if rng.random() < 0.4:       # nested include
                     nn = 'nest%d.txt' % j
                     files[nn] = ['Y%d 1 %.5f %.5f %.5f 11.00000 0.05' % (j, rng.random(), rng.random(), rng.random())]
